@@ -458,11 +458,12 @@ impl World for NWorld {
             }
         }
         self.msgs.len().hash(&mut h);
-        let mut pending: BTreeMap<u16, Vec<(usize, u32)>> = BTreeMap::new();
+        let mut pending: BTreeMap<u16, (u8, bool, usize, Vec<(usize, u32)>, Vec<(usize, u32)>)> = BTreeMap::new();
         for (l, m) in self.msgs.iter().enumerate() {
-            pending.insert(l as u16, m.got.clone());
+            pending.insert(l as u16, (m.ch, m.from_server, m.sender, m.recipients.clone(), m.got.clone()));
         }
         pending.hash(&mut h);
+        self.epochs.hash(&mut h);
         h128(&h.finish())
     }
 
